@@ -33,6 +33,12 @@ def run(env, tier, seed, broken=None):
     long3 = '"' + 'ক' * 3000 + '";'
     for extra_lines in ([long1, '1 + 1;'], ['1;', long2, '2;'], [long3, long1, long2], [long2]):
         sessions.append(extra_lines)
+    # long histories: many failing lines of one kind (and identical ones) before further lines - a session keeps no
+    # memory of earlier diagnostics, counts or depths
+    for bad in ['1 +;', '@;', 'nope;', '"open', '1/0;', '%s g(n) { %s (n > 50) { %s nope; } %s g(n + 1); } g(0);' % (FUN, IF, RETURN, RETURN)]:
+        for k in (99, 100, 101, 130, 300):
+            sessions.append([bad] * k + ['%s (2;' % PRINT, '%s 1+1;' % PRINT, bad, '%s f() { %s 7; } f();' % (FUN, RETURN), '1+2;'])
+    sessions.append(['%s d(n) { %s (n == 0) { %s nope; } %s d(n - 1); } d(400);' % (FUN, IF, RETURN, RETURN)] * 60 + ['%s g() { %s 7; } g();' % (FUN, RETURN)])
     for s in sessions:
         cases.append({'id': 'r%d' % n, 'mode': 'repl', 'src': '\n'.join(s) + rng.choice(['\n', '\n', '', '\r\n']), 'lines': s}); n += 1
     mism, ri, rm = diff_runs(env, cases, need_oracle=False)
